@@ -427,6 +427,8 @@ package graph
 //@   monitor[C05,C19] cycle_cache by(cycle_cache) each_return: cycleCacheSound(g)
 //@   modifies map[NodeKey]bool, CircularDependencyError.Node, CircularDependencyError.Path, alloc, Node.InDegree, Node.OutDegree, Node.Dependents, Node.Dependencies, Node.Visited, Node.Visiting, DependencyGraph.cycleCache, DependencyGraph.cycleCacheDirty
 //@   ensures[C05,C19] graph_unchanged: g.nodes == old(g.nodes) && g.edges == old(g.edges) && wf(g)
+//@   ensures[C05,C19] true_means_acyclic by(nil_means_acyclic): result ==> acyclic(g)
+//@   ensures[C05,C19] false_means_a_cycle_exists by(reported_path_is_a_cycle): !result ==> (exists p []NodeKey :: isCycle(g, p))
 //
 //@ func DependencyGraph.AddProvider
 //@   monitor[C19,C05,C06] wf: wf(g)
